@@ -5,15 +5,34 @@ package vrt
 // RaceEnabled reports whether the binary was built with -race (HB-race mode).
 const RaceEnabled = false
 
-func raceAcquire[T any](p *T)      {}
-func raceRelease[T any](p *T)      {}
+//go:norace
+func raceAcquire[T any](p *T) {}
+
+//go:norace
+func raceRelease[T any](p *T) {}
+
+//go:norace
 func raceReleaseMerge[T any](p *T) {}
-func raceDisable()                 {}
-func raceEnable()                  {}
-func raceSpawn(t *Thread)          {}
-func raceStart(t *Thread)          {}
-func execBegin()                   {}
-func execEnd()                     {}
+
+//go:norace
+func raceDisable() {}
+
+//go:norace
+func raceEnable() {}
+
+//go:norace
+func raceSpawn(t *Thread) {}
+
+//go:norace
+func raceStart(t *Thread) {}
+
+//go:norace
+func execBegin() {}
+
+//go:norace
+func execEnd() {}
 
 // RaceErrors returns the number of race reports so far (always 0 without -race).
+//
+//go:norace
 func RaceErrors() int { return 0 }
